@@ -62,6 +62,14 @@ var corpusLiterals = func() []string {
 	for _, e := range []string{`\n`, `\r`, `\t`, `\\`, `\"`, `\'`, `\a`, `\0`, `\u00e9`, `\u0007`, `\U0001F600`, `\x41\x42`} {
 		out = append(out, `"`+e+`"`, `"a`+e+`b"`)
 	}
+	// code points at every boundary of the escape forms the printer chooses between (raw, \x, \u, \U), written raw and escaped
+	for _, r := range []rune{0x7f, 0x80, 0x9f, 0xa0, 0xad, 0xff, 0x100, 0x7ff, 0x800, 0x2028, 0xd7ff, 0xe000, 0xfeff, 0xfffd, 0xfffe, 0xffff, 0x10000, 0x1f600, 0xe0001, 0xeffff, 0xf0000, 0xffffd, 0xfffff, 0x100000, 0x10fffd, 0x10fffe, 0x10ffff} {
+		out = append(out, "\""+string(r)+"\"", "`"+string(r)+"`", "\"a"+string(r)+"b"+string(r)+"\"")
+		if r <= 0xffff {
+			out = append(out, fmt.Sprintf("\"\\u%04x\"", r))
+		}
+		out = append(out, fmt.Sprintf("\"\\U%08x\"", r), fmt.Sprintf("\"x\\U%08Xy\"", r))
+	}
 	sig := []byte{'"', '\\', '\n', '\t', '$', ' ', 'a', 0x7f, 0x80, 0xff, '`', '\''}
 	for _, x := range sig {
 		for _, y := range sig {
